@@ -854,3 +854,23 @@ Section Km.
     now rewrite Qred_correct.
   Qed.
 End Km.
+
+(* ------------------------------------------------------------------ Levenshtein DP vs the recursive definition (bounded) *)
+Fixpoint lists_len (alphabet : list nat) (n : nat) : list (list nat) :=
+  match n with
+  | O => [[]]
+  | S k => flat_map (fun l => map (fun c => c :: l) alphabet) (lists_len alphabet k)
+  end.
+Definition lists_upto (alphabet : list nat) (n : nat) : list (list nat) :=
+  flat_map (lists_len alphabet) (seq 0 (S n)).
+Definition lev_agree_on (ls : list (list nat)) : bool :=
+  forallb (fun s => forallb (fun t => Nat.eqb (lev_list Nat.eqb s t) (lev_spec Nat.eqb s t)) ls) ls.
+
+Lemma lev_dp_matches_spec_bounded :
+  forall s t, In s (lists_upto [0; 1; 2] 4) -> In t (lists_upto [0; 1; 2] 4) ->
+    lev_list Nat.eqb s t = lev_spec Nat.eqb s t.
+Proof.
+  assert (H : lev_agree_on (lists_upto [0; 1; 2] 4) = true) by (vm_compute; reflexivity).
+  intros s t Hs Ht. unfold lev_agree_on in H. rewrite forallb_forall in H. specialize (H s Hs).
+  rewrite forallb_forall in H. specialize (H t Ht). now apply Nat.eqb_eq.
+Qed.
